@@ -32,6 +32,15 @@ def main(argv):
         print(__doc__)
         return 2
     prop = argv[1].upper()
+    if "--explain" in argv:
+        path = argv[argv.index("--explain") + 1]
+        try:
+            with open(path) as f:
+                print(f.read())
+            return 0
+        except Exception as e:
+            print("cannot read %s: %s" % (path, e))
+            return 2
     tier = os.environ.get("VERIF_TIER", "quick")
     if "--tier" in argv:
         tier = argv[argv.index("--tier") + 1]
@@ -43,6 +52,7 @@ def main(argv):
         if tier == "thorough":
             from sa import selftest
             selftest.run(prop, ctx)
+            ctx.tier = "thorough"
         cmd = "python3 sa/check.py %s --tier %s" % (prop, tier)
         rc = finish(ctx, mod.LEVEL, mod.EXPLANATION, cmd, t0, seed)
         return rc
@@ -56,4 +66,9 @@ def main(argv):
 
 
 if __name__ == "__main__":
-    sys.exit(main(sys.argv))
+    try:
+        rc = main(sys.argv)
+        sys.stdout.flush()
+    except BrokenPipeError:
+        rc = 1
+    sys.exit(rc)
